@@ -54,6 +54,10 @@ let rp_variant_of (s : string) : rp_variant =
 
 let b01 b = if b then "1" else "0"
 
+(* replay_window of the configuration text ("-": line absent -> the parser's default) *)
+let window_of (wcfg : string) : z =
+  if wcfg = "-" then rp_default_window else rp_cfg_window (zi wcfg)
+
 let rpc _ =
   Printf.sprintf "seqmax=%s defwin=%d" (hex_of_z rp_seq_max) (int_of_z rp_default_window)
 
@@ -61,7 +65,7 @@ let rpu toks =
   match toks with
   | var :: wcfg :: ops ->
       let v = rp_variant_of var in
-      let w = rp_cfg_window (zi wcfg) in
+      let w = window_of wcfg in
       let s = ref rp_init in
       let outs = List.map (fun op ->
           let ret =
@@ -96,7 +100,7 @@ let rpd toks =
   match toks with
   | var :: wcfg :: b12 :: _con :: msgs ->
       let v = rp_variant_of var in
-      let w = rp_cfg_window (zi wcfg) in
+      let w = window_of wcfg in
       let b12 = b12 <> "0" in
       (* two recipient contexts: a leading '2' addresses the second one *)
       let s = ref rp_init and s2 = ref rp_init in
@@ -115,7 +119,7 @@ let rpd toks =
 let rps toks =
   match toks with
   | wcfg :: b12 :: msgs ->
-      let w = rp_cfg_window (zi wcfg) in
+      let w = window_of wcfg in
       let b12 = b12 <> "0" in
       let a = ref rp_abs_init and a2 = ref rp_abs_init in
       let outs = List.map (fun tok ->
